@@ -19,15 +19,17 @@ def gen(depth):
         for u in TEXTS:
             yield (b"{~~" + t + b"~>" + u + b"~~}", u, t)
 
+# a backslash before the opening brace makes the opener plain text (and leaves its closer unmatched): top-level items only, identity under both operations
+ESCAPED = [(x, x, x) for x in (b"\\{++e++}", b"\\{--e--}", b"\\{~~e~>f~~}", b"\\{==e==}", b"\\{>>e<<}")]
 ITEMS = None
 def items():
     global ITEMS
-    if ITEMS is None: ITEMS = list(gen(2))
+    if ITEMS is None: ITEMS = list(gen(2)) + ESCAPED
     return ITEMS
 ITEMS1 = None
 def items1():
     global ITEMS1
-    if ITEMS1 is None: ITEMS1 = list(gen(1))
+    if ITEMS1 is None: ITEMS1 = list(gen(1)) + ESCAPED
     return ITEMS1
 
 def ambiguous(parts):
